@@ -344,9 +344,51 @@ fn flow_oracle(cfg: &FlowCfg, recs: &[(bool, bool, i64, f64, f64)]) -> Option<(S
     None
 }
 
+/// C09 "draws older than two windows never influence the transformation", on the REAL estimators (driven through `EstimatorProbe` exactly as
+/// `GlobalStrategy` drives them): two histories that differ only in the start point and in the draws before the last-but-one switch must
+/// give bit-identical transformations (non-Gaussian windows: for Gaussian draws every window gives the same estimate).
+fn window_independence(seed: u64, case: u64, rep: &mut Report) -> bool {
+    use crate::c08::{run_scenario, Op, Scenario};
+    let mut r = Sm::new(seed, "C09-window", case);
+    let lowrank = case % 2 == 1;
+    let dim = 2 + r.below(4) as usize;
+    let pair = |r: &mut Sm, shift: f64| -> (Vec<f64>, Vec<f64>) {
+        let x: Vec<f64> = (0..dim).map(|i| shift + r.normal() * (1.0 + i as f64)).collect();
+        let g: Vec<f64> = x.iter().map(|v| -v - 0.3 * v * v * v + 0.1 * r.normal()).collect();
+        (x, g)
+    };
+    let w1: Vec<(Vec<f64>, Vec<f64>)> = (0..(4 + r.below(7))).map(|_| pair(&mut r, 0.0)).collect();
+    let w2: Vec<(Vec<f64>, Vec<f64>)> = (0..(4 + r.below(7))).map(|_| pair(&mut r, 0.0)).collect();
+    let build = |r: &mut Sm, shift: f64| -> Scenario {
+        let init = pair(r, shift);
+        let old: Vec<(Vec<f64>, Vec<f64>)> = (0..(3 + r.below(8))).map(|_| pair(r, shift)).collect();
+        let mut ops = vec![Op::Init(init.0, init.1)];
+        for (x, g) in &old { ops.push(Op::Add(true, x.clone(), g.clone())); }
+        ops.push(Op::Switch);
+        for (x, g) in &w1 { ops.push(Op::Add(true, x.clone(), g.clone())); }
+        ops.push(Op::Switch);
+        for (x, g) in &w2 { ops.push(Op::Add(true, x.clone(), g.clone())); }
+        ops.push(Op::Adapt);
+        Scenario { dim, lowrank, gaussian: None, ops }
+    };
+    let (a, b) = (build(&mut r, 0.0), build(&mut r, 5.0));
+    rep.evaluations += 1;
+    rep.hit(if lowrank { "window_independence.lowrank" } else { "window_independence.diag" });
+    let (Ok(oa), Ok(ob)) = (run_scenario(&a), run_scenario(&b)) else { rep.notes.push(format!("window independence case {case}: estimator run failed")); return false; };
+    let (Some(la), Some(lb)) = (oa.last(), ob.last()) else { return false };
+    let bits = |v: &[f64]| v.iter().map(|x| x.to_bits()).collect::<Vec<_>>();
+    let same = bits(&la.stds) == bits(&lb.stds) && bits(&la.mean) == bits(&lb.mean) && bits(&la.eig_sqrt) == bits(&lb.eig_sqrt) && la.logdet.to_bits() == lb.logdet.to_bits();
+    if !same {
+        rep.violation("sched.old_window_influences", &format!("{} estimator: two histories that differ only BEFORE the last-but-one window switch (start point and first window) give different transformations after the second switch: scales {:?} vs {:?}",
+            if lowrank { "low-rank" } else { "diagonal" }, &la.stds[..la.stds.len().min(3)], &lb.stds[..lb.stds.len().min(3)]), json!({"kind": "window_independence", "seed": seed, "case": case}));
+    }
+    !same
+}
+
 pub fn main(tier: &str, seed: u64, outdir: &str) {
     let mut cases = Cases::new();
     let mut rep = Report::new("C06");
+    for case in 0..(if tier == "thorough" { 2000 } else { 40 }) { window_independence(seed, case, &mut rep); }
     let n = if tier == "thorough" { 6000 } else { 160 };
     for case in 0..n {
         let mut r = Sm::new(seed, "C06", case);
@@ -408,6 +450,12 @@ pub fn main(tier: &str, seed: u64, outdir: &str) {
 }
 
 pub fn replay(v: &serde_json::Value) -> bool {
+    if v["kind"] == "window_independence" {
+        let mut rep = Report::new("replay");
+        let bad = window_independence(v["seed"].as_u64().unwrap_or(0), v["case"].as_u64().unwrap_or(0), &mut rep);
+        println!("replay: {:?}", rep.violations.iter().map(|v| v["what"].as_str().unwrap_or("").to_string()).collect::<Vec<_>>());
+        return bad;
+    }
     if v["kind"] == "flow" {
         let cfg = FlowCfg::from_json(&v["cfg"]);
         return match run_flow(&cfg) { Err(e) => { println!("replay: {e}"); true } Ok(recs) => { let r = flow_oracle(&cfg, &recs); println!("replay: {:?}", r); r.is_some() } };
